@@ -41,7 +41,7 @@ struct IoFault : Profile {
     const char *name() const override { return "iofault"; }
     const char *property() const override { return "C16"; }
     const char *level() const override { return "fault_enumeration"; }
-    int         runs(bool thorough) const override { return thorough ? 1600 : 96; }
+    int         runs(bool thorough) const override { return thorough ? 1600 : 88; }
     int         minimise_budget() const override { return 200; }
     std::string rule() const override
     {
@@ -73,12 +73,8 @@ struct IoFault : Profile {
         p.knobs["bufsize"]  = kr.range(16, 600);
         Rng r               = rng.sub(2);
         // a program concentrates on one or two interfaces so that event traces stay short
-        // known finding C16-sd-error-paths: the SD layer (family 2) is kept out of the search, see known_findings.txt
-        static const int fams[] = {0, 1, 3, 4};
-        int fam1 = fams[r.below(4)], fam2 = r.chance(0.5) ? fams[r.below(4)] : fam1;
-        if (const char *fk = getenv("H4SIM_FORCE_KNOBS"))
-            if (strstr(fk, "unguard_sd")) // finding hunting by hand: SD programs only
-                fam1 = fam2 = 2;
+        static const int fams[] = {0, 1, 2, 3, 4};
+        int fam1 = fams[r.below(5)], fam2 = r.chance(0.5) ? fams[r.below(5)] : fam1;
         int n1 = (int)r.range(1, thorough ? 6 : 4), n2 = (int)r.range(0, 3);
         int maxlen = r.chance(0.3) ? 300 : 40;
         for (int i = 0; i < n1; i++)
@@ -133,7 +129,7 @@ struct IoFault : Profile {
         // file, which no property covers.  The current session still runs to its closes.
         mx.cache_off               = p.knob("cacheoff", 0) != 0;
         mx.no_reopen_after_failure = true;
-        mx.skip_sd                 = p.knob("unguard_sd", 0) == 0;
+        mx.skip_sd                 = false;
         for (size_t i = 0; i < p.ops.size(); i++) {
             ctx.begin_op((int)i);
             // after a reported failure the program only releases and closes what it holds: whatever the failed
